@@ -20,7 +20,8 @@ ASSUMPTIONS = ["cases outside the model (Unsupported) are inconclusive, never ve
 
 
 def plan(tier):
-    return {"budget_s": 60 if tier == "quick" else 600, "profiles": ["R"], "min_evaluations": 1000}
+    return {"budget_s": 60 if tier == "quick" else 600, "profiles": ["R"], "min_evaluations": 1000,
+            "max_evaluations": 80000 if tier == "quick" else None}
 
 
 def canon_val(text):
